@@ -83,7 +83,10 @@ def gen_tree(rng, nleaves, max_arity=4, unary=False, fancy_names=False, shape=No
             k = max(2, min(k, max_arity, n))
             cuts = sorted(rng.sample(range(1, n), k - 1))
             parts = [b - a for a, b in zip([0] + cuts, cuts + [n])]
-        return T(fresh('N'), [build(p) for p in parts])
+        node = T(fresh('N'), [build(p) for p in parts])
+        if unary and rng.random() < 0.12:
+            node = T(fresh('U'), [node])        # a unary level above an internal node
+        return node
 
     t = build(nleaves)
     if t.is_leaf():
@@ -464,14 +467,15 @@ class Plan(object):
     pass
 
 
-def gen_plan(rng, nleaves=None, nfam=None, fancy_names=False, use_internal=None, max_leaves=10, dup_heavy=False):
+def gen_plan(rng, nleaves=None, nfam=None, fancy_names=False, use_internal=None, max_leaves=10, dup_heavy=False,
+             unary=False):
     pl = Plan()
     if nleaves is None:
         nleaves = rng.randint(2, max_leaves)
     shape = rng.choice([None, None, None, None, 'caterpillar', 'balanced', 'star'])
     if dup_heavy:
         shape = rng.choice(['balanced', 'balanced', None])
-    pl.tree = gen_tree(rng, nleaves, max_arity=rng.choice([2, 3, 4, 5]), fancy_names=fancy_names, shape=shape)
+    pl.tree = gen_tree(rng, nleaves, max_arity=rng.choice([2, 3, 4, 5]), fancy_names=fancy_names, shape=shape, unary=unary)
     pl.use_internal = (rng.random() < 0.6) if use_internal is None else use_internal
     pl.named = pl.tree if pl.use_internal else synth_names(pl.tree)
     if nfam is None:
@@ -572,9 +576,9 @@ def spell_plan(rng, pl, explicit=False, tag='main', group_ids=None, p_reuse_ids=
 
 
 def gen_case(rng, nleaves=None, nfam=None, explicit=False, fancy_names=False, use_internal=None,
-             max_leaves=10, tag='main', dup_heavy=False, **spell_kw):
+             max_leaves=10, tag='main', dup_heavy=False, unary=False, **spell_kw):
     pl = gen_plan(rng, nleaves=nleaves, nfam=nfam, fancy_names=fancy_names, use_internal=use_internal,
-                  max_leaves=max_leaves, dup_heavy=dup_heavy)
+                  max_leaves=max_leaves, dup_heavy=dup_heavy, unary=unary)
     return spell_plan(rng, pl, explicit=explicit, tag=tag, **spell_kw)
 
 
